@@ -20,7 +20,7 @@ type Expr interface {
 
 // Const is an int / bool / string constant.
 type Const struct {
-	T string // "i", "b", "s"
+	T string // "i", "b", "s", "r" (whole-valued real literal: 2.0)
 	I int64
 	B bool
 	S string
@@ -34,6 +34,8 @@ func (c *Const) GRL() string {
 	switch c.T {
 	case "i":
 		return strconv.FormatInt(c.I, 10)
+	case "r":
+		return strconv.FormatInt(c.I, 10) + ".0"
 	case "b":
 		if c.B {
 			return "true"
@@ -46,6 +48,8 @@ func (c *Const) JS() interface{} {
 	switch c.T {
 	case "i":
 		return J{"k": "c", "t": "i", "v": c.I}
+	case "r": // a real literal with a whole value: the same number for the specification, another kind of constant for the engine
+		return J{"k": "c", "t": "r", "v": c.I}
 	case "b":
 		return J{"k": "c", "t": "b", "v": c.B}
 	}
